@@ -6,7 +6,7 @@ set_option linter.unusedSectionVars false
 set_option linter.unusedVariables false
 namespace Frappy.Lemmas.C01
 open FloatOps DType Frappy.Datatypes Frappy.Spec.C01
-open PVal (toFloat? seqItems? prevItems prevFields dictGet dictSet)
+open PVal (toFloat? seqItems? prevItems prevFields dictGet dictSet isNone given notOffered)
 
 variable {F : Type} [FloatOps F] [LawfulFloatOps F]
 
@@ -55,8 +55,8 @@ theorem conv_denotes : ∀ (dt : DType F) (v : PVal F) (prev : Option (PVal F)) 
         · obtain ⟨rs, hrs, hr⟩ := map_ok h
           have hrs := mapErr_ok hrs
           rw [hr]; simp only [Denotes]; rw [hvs]; simp only
-          exact mapPrev_allDen (P := fun p x y => Denotes elem p x y) (Q := InSet elem)
-            (fun v p r hq h => conv_denotes elem v p r hwf.1 hq h) vs _ rs (prevItems_inSet hp) hrs
+          exact mapPrev_allDen (P := fun p x y => Denotes elem p x y) (Q := Shaped elem)
+            (fun v p r hq h => conv_denotes elem v p r hwf.1 hq h) vs _ rs (prevItems_shaped hp) hrs
   | .tuple elems, v, prev, r, hwf, hp, h => by
     simp only [DType.WF] at hwf
     cases prev with
@@ -75,10 +75,9 @@ theorem conv_denotes : ∀ (dt : DType F) (v : PVal F) (prev : Option (PVal F)) 
             obtain ⟨rs, hrs, hr⟩ := map_ok h
             have hrs := mapErr_ok hrs
             have hq := hp p rfl
-            have hzip : ZipInG OnGrid elems ps := by
-              cases p <;> simp only [InSet, InSetG] at hq <;> try exact hq.elim
-              all_goals simp only [seqItems?] at hps
-              case tuple l => injection hps with hps; rw [← hps]; exact hq
+            have hzip : ZipShaped elems ps := by
+              simp only [Shaped, hps] at hq
+              exact hq
             rw [hr]; simp only [Denotes]; rw [hvs]; simp only; rw [hps]; simp only
             exact convTuple_denotes elems vs (some ps) rs hwf.2 hlen' (fun l hl => by injection hl with hl; rw [← hl]; exact hzip) hrs
     | none =>
@@ -104,30 +103,44 @@ theorem conv_denotes : ∀ (dt : DType F) (v : PVal F) (prev : Option (PVal F)) 
         obtain ⟨acc, hacc, hr⟩ := map_ok h
         have hacc := mapErr_ok hacc
         simp only [beq_self_eq_true, Bool.or_true] at hcheck hacc
-        obtain ⟨p1, p2⟩ := prevFields_inSet hp
-        obtain ⟨_, b, c⟩ := foldFields_ok (M := fun k x => True) (fun _ _ _ _ => trivial) items _ acc hacc
-        have hgiven := foldFields_given (M := fun k x y => MemberDen ms k x y)
-          (fun k v r _ hkv => convMember_denotes ms k v r hwf.2.2.2 hkv) items _ acc hacc (b p2)
+        obtain ⟨acc0, h0, h1⟩ := structFold_ok hacc
+        obtain ⟨_, b0, c0⟩ := foldFields_ok (M := fun k x => True) (fun _ _ _ _ => trivial) _ _ acc0 h0
+        obtain ⟨_, b, c⟩ := foldFields_ok (M := fun k x => True) (fun _ _ _ _ => trivial) items _ acc h1
+        have hf : ∀ k v r, isNone v = false → convMember .validate ms k v = some (.ok r) → MemberDen ms k v r :=
+          fun k v r _ hkv => convMember_denotes ms k v r hwf.2.2.2 hkv
+        have hn0 := b0 (by simp)
+        have g0 := foldFields_given (M := fun k x y => MemberDen ms k x y) hf _ [] acc0 h0 hn0
+        have g1 := foldFields_given (M := fun k x y => MemberDen ms k x y) hf items acc0 acc h1 (b hn0)
         rw [hr]; simp only [Denotes]
         unfold DenotesStruct
         refine ⟨?_, ?_, ?_⟩
         · intro kv hkv
-          have := hgiven kv hkv
+          have := g1 kv hkv
           cases hg : given items kv.1 with
           | some v => rw [hg] at this; exact this
           | none =>
             rw [hg] at this
             simp only at this ⊢
-            rw [this]
-            exact pval_same_refl _
+            have hmem := dictGet_mem this
+            have h2 := g0 (kv.1, kv.2) hmem
+            simp only at h2
+            cases hk : given (notOffered items (prevFields prev)) kv.1 with
+            | some pv => rw [hk] at h2; exact h2
+            | none => rw [hk] at h2; simp [dictGet] at h2
         · intro kv hkv hn
           exact c kv.1 (Or.inr (mem_givenKeys hkv hn))
-        · intro kv hkv
-          exact c kv.1 (Or.inl (List.mem_map_of_mem hkv))
+        · intro kv hkv hn
+          cases hg : given items kv.1 with
+          | some v => exact c kv.1 (Or.inr (given_some_givenKeys items kv.1 v hg))
+          | none =>
+            have hk : kv ∈ notOffered items (prevFields prev) := by
+              unfold notOffered
+              exact List.mem_filter.2 ⟨hkv, by simp [hg]⟩
+            exact c kv.1 (Or.inl (c0 kv.1 (Or.inr (mem_givenKeys hk hn))))
       · cases h
     · cases h
 theorem convTuple_denotes : ∀ (ts : List (DType F)) (vs : List (PVal F)) (ps : Option (List (PVal F)))
-    (rs : List (PVal F)), WFList ts → vs.length = ts.length → (∀ l, ps = some l → ZipInG OnGrid ts l) →
+    (rs : List (PVal F)), WFList ts → vs.length = ts.length → (∀ l, ps = some l → ZipShaped ts l) →
     convTuple .validate ts vs ps = .ok rs → ZipDen ts ps vs rs
   | [], vs, ps, rs, _, hlen, _, h => by
     simp only [convTuple] at h
@@ -139,12 +152,12 @@ theorem convTuple_denotes : ∀ (ts : List (DType F)) (vs : List (PVal F)) (ps :
   | t :: ts, [], ps, rs, _, hlen, _, h => by simp at hlen
   | t :: ts, v :: vs, some [], rs, _, _, hps, h => by
     have := hps [] rfl
-    simp only [ZipInG] at this
+    simp only [ZipShaped] at this
   | t :: ts, v :: vs, some (p :: ps), rs, hwf, hlen, hps, h => by
     simp only [convTuple] at h
     simp only [WFList] at hwf
     have hz := hps _ rfl
-    simp only [ZipInG] at hz
+    simp only [ZipShaped] at hz
     split at h
     · cases h
     · rename_i r hr
